@@ -1,8 +1,11 @@
 use std::sync::Arc;
 
+use c16::program::{self, HoleSpec, Outcome, Place, SegSpec, Site, SiteKind, VSpec};
 use c16::*;
+use serde::{Deserialize, Serialize};
+use vcore::serde_json;
 use vcore::proptest::prelude::*;
-use vcore::Level as VLevel;
+use vcore::{Cx, Level as VLevel, Res};
 
 const RULE: &str = "cases are (a) triples of templates: a generated part sequence (text fragments incl. empty and adjacent ones over an alphabet of 1-4 byte characters, holes with repeated/empty/odd labels and optional formatters, each part backed by a static, borrowed, owned or shared string) plus two partners derived from it -- the same meaning re-split at arbitrary character boundaries with extra empty fragments (equal by construction), one/two-edit mutants of the meaning (char replaced/inserted/deleted, hole renamed/dropped/inserted/swapped/turned into `{label}` text), or an independent sequence -- each built through one of new/new_ref/From<&[Part]>/new_owned/literal/literal_ref and up to two of by_ref/to_owned/clone; all 9 ordered comparisons are judged against the normal form (merge adjacent text, drop empty) and the laws, and every template is rendered with a property list containing duplicate keys into a String, through Display, a recording template::Write, a default-method Write, a failing Write and Event::msg; (b) the complete set of ordered pairs of part sequences up to length 3 (thorough: 4) over a 7-part alphabet; (c) rendering-focused single templates with larger property lists. Non-trivial = a pair whose fragment boundaries differ inside a run containing a multi-byte character, or a template with an empty fragment adjacent to a hole (for (c): a hole filled from the properties next to non-ASCII/empty text or an unfilled hole).";
 
@@ -144,6 +147,127 @@ fn small_seqs(max_len: usize) -> Vec<Vec<u8>> {
     all
 }
 
+// ---------------------------------------------------------------------------------------------
+// phase 2: macro call sites (program generation)
+
+#[derive(Serialize, Deserialize, Debug, Clone)]
+struct SiteCase {
+    id: u32,
+    site: Site,
+}
+
+const SITE_TEXT: [char; 18] = ['a', 'b', ' ', '{', '}', 'é', '€', '😀', '"', '\\', '\n', '\t', 'x', '0', ':', '#', '\'', '.'];
+const SAFE_TEXT: [char; 9] = ['a', 'b', ' ', 'é', '€', '😀', 'x', '0', '-'];
+
+fn site_text() -> impl Strategy<Value = String> {
+    prop_oneof![
+        // mostly text that needs no escape sequence (so the search continues past the escape finding)
+        7 => prop::collection::vec(prop::sample::select(SITE_TEXT.iter().copied().filter(|c| !matches!(c, '"' | '\\')).collect::<Vec<_>>()), 0..=5),
+        2 => prop::collection::vec(prop::sample::select(SITE_TEXT.to_vec()), 1..=5),
+    ]
+    .prop_map(|v| v.into_iter().collect::<String>())
+}
+
+fn vspec(safe: bool) -> BoxedStrategy<VSpec> {
+    let string = if safe {
+        prop::collection::vec(prop::sample::select(SAFE_TEXT.to_vec()), 0..=4).prop_map(|v| v.into_iter().collect::<String>()).boxed()
+    } else {
+        site_text().boxed()
+    };
+    prop_oneof![
+        3 => string.clone().prop_map(VSpec::Str),
+        1 => string.prop_map(VSpec::OwnedString),
+        2 => prop_oneof![-20i64..20, any::<i64>()].prop_map(VSpec::I),
+        2 => prop::sample::select(vec![0.0f64, -0.0, 1.5, 3.14159, 1e21, 1e-7, 100.0, -2.5, 15.0]).prop_map(VSpec::F),
+        1 => any::<bool>().prop_map(VSpec::B),
+        1 => (-20i64..20).prop_map(VSpec::D),
+    ]
+    .boxed()
+}
+
+fn hole_spec(kind: SiteKind) -> BoxedStrategy<HoleSpec> {
+    let flags = prop_oneof![1 => Just(None), 1 => (0u8..program::FLAGS.len() as u8).prop_map(Some)];
+    match kind {
+        SiteKind::Tpl => (
+            vspec(false).prop_filter_map("no debug structs in tpl!", |v| if matches!(v, VSpec::D(_)) { Some(VSpec::I(7)) } else { Some(v) }),
+            prop_oneof![Just(Place::Local), Just(Place::ExtraLocal)],
+            flags,
+        )
+            .prop_map(|(value, place, flags)| HoleSpec { value, place, flags })
+            .boxed(),
+        _ => prop_oneof![
+            (vspec(true), Just(Place::Inline), flags.clone()),
+            (vspec(false), prop_oneof![Just(Place::Local), Just(Place::Extra), Just(Place::ExtraLocal)], flags),
+        ]
+        .prop_map(|(value, place, flags)| HoleSpec { value, place, flags })
+        .boxed(),
+    }
+}
+
+fn site() -> impl Strategy<Value = Site> {
+    prop_oneof![4 => Just(SiteKind::Format), 3 => Just(SiteKind::Tpl), 3 => Just(SiteKind::Evt)].prop_flat_map(|kind| {
+        let seg = prop_oneof![
+            5 => site_text().prop_map(SegSpec::Text),
+            5 => hole_spec(kind).prop_map(SegSpec::Hole),
+        ];
+        let extras = if kind == SiteKind::Tpl { Just(Vec::new()).boxed() } else { prop::collection::vec(vspec(false), 0..=2).boxed() };
+        (prop::collection::vec(seg, 0..=7), extras, 0u8..10, prop::bool::weighted(0.2)).prop_map(move |(segs, extras, name_rot, escape_controls)| Site {
+            kind,
+            segs,
+            extras,
+            name_rot,
+            escape_controls,
+        })
+    })
+}
+
+fn check_site(case: &SiteCase, cx: &mut Cx, results: &std::collections::BTreeMap<String, Outcome>, verif_dir: &std::path::Path) -> Res {
+    let site = &case.site;
+    if !site.well_formed() {
+        // only reachable through hand-edited replay files
+        cx.class("site:ill-formed(skipped)");
+        return Ok(());
+    }
+    let holes = site.holes();
+    let text = site.text();
+    cx.class(match site.kind {
+        SiteKind::Format => "site:format!",
+        SiteKind::Tpl => "site:tpl!",
+        SiteKind::Evt => "site:evt!",
+    });
+    cx.class_if(text.contains('{') || text.contains('}'), "site:escaped-braces");
+    cx.class_if(holes.iter().any(|h| h.flags.is_some()), "site:format-flags");
+    cx.class_if(holes.iter().any(|h| h.place == Place::Inline), "site:hole-with-expression");
+    cx.class_if(holes.iter().any(|h| matches!(h.place, Place::Extra | Place::ExtraLocal)), "site:hole-bound-after-literal");
+    cx.class_if(holes.iter().any(|h| matches!(h.value, VSpec::D(_))), "site:as_debug");
+    cx.class_if(!text.is_ascii(), "site:non-ascii-text");
+    cx.class_if(site.uses_escape_sequences(), "site:escape-sequence-in-literal");
+    cx.class_if(holes.is_empty(), "site:no-holes");
+    // non-trivial: at least one hole next to escaped braces, format flags or non-ASCII text
+    cx.nontrivial(!holes.is_empty() && (text.contains('{') || text.contains('}') || !text.is_ascii() || holes.iter().any(|h| h.flags.is_some())));
+
+    let key = serde_json::to_string(site).unwrap();
+    let outcome = match results.get(&key) {
+        Some(o) => o.clone(),
+        None => match program::run_batch(verif_dir, "single", &[(case.id, site)]) {
+            Ok(m) => m.get(&case.id).cloned().unwrap_or(Outcome::Fail { sig: "harness/no-verdict".into(), detail: String::new() }),
+            Err(e) => Outcome::Fail { sig: "harness/generated-program-failed".into(), detail: e },
+        },
+    };
+    match outcome {
+        Outcome::Ok => Ok(()),
+        Outcome::Fail { sig, detail } => cx.fail(sig, format!("{detail}; site {}", serde_json::to_string(site).unwrap())),
+    }
+}
+
+fn only_allows(name: &str) -> bool {
+    let args: Vec<String> = std::env::args().collect();
+    match args.iter().position(|a| a == "--only") {
+        Some(i) => args.get(i + 1).map_or(true, |o| name.contains(o.as_str())),
+        None => true,
+    }
+}
+
 fn main() {
     vcore::run(
         "C16",
@@ -156,24 +280,27 @@ fn main() {
             "'static-demanding constructors (Template::new, Template::literal, Part::text, Part::hole) are fed generated data whose lifetime is extended for the duration of one case (see c16::extend)",
         ],
         |s| {
-            s.require("split-differs-in-multibyte-run", 3_000);
-            s.require("empty-fragment-adjacent-to-hole", 3_000);
-            s.require("empty-fragment-before-hole", 2_000);
-            s.require("pair:equal-by-meaning", 3_000);
-            s.require("pair:unequal", 3_000);
-            s.require("triple:all-equal-by-construction", 1_000);
-            s.require("tpl:repeated-label", 1_000);
-            s.require("hole:absent", 3_000);
-            s.require("hole:present-plain", 3_000);
-            s.require("hole:present-with-formatter", 1_000);
-            s.require("hole:duplicate-key-with-different-values", 500);
-            s.require("hole:empty-label", 1_000);
-            s.require("render:writer-fails", 1_000);
+            s.require("split-differs-in-multibyte-run", 30_000);
+            s.require("empty-fragment-adjacent-to-hole", 30_000);
+            s.require("empty-fragment-before-hole", 25_000);
+            s.require("pair:equal-by-meaning", 50_000);
+            s.require("pair:unequal", 40_000);
+            s.require("triple:all-equal-by-construction", 20_000);
+            s.require("tpl:repeated-label", 8_000);
+            s.require("hole:absent", 60_000);
+            s.require("hole:present-plain", 25_000);
+            s.require("hole:present-with-formatter", 10_000);
+            s.require("hole:duplicate-key-with-different-values", 10_000);
+            s.require("hole:empty-label", 20_000);
+            s.require("render:writer-fails", 35_000);
             for f in ["form:new", "form:new_ref", "form:from-slice", "form:new_owned", "form:literal", "form:literal_ref"] {
-                s.require(f, 1_000);
+                s.require(f, 15_000);
             }
             for c in ["conv:by_ref", "conv:to_owned", "conv:clone"] {
-                s.require(c, 3_000);
+                s.require(c, 50_000);
+            }
+            for c in ["site:format!", "site:tpl!", "site:evt!", "site:escaped-braces", "site:format-flags", "site:hole-with-expression", "site:hole-bound-after-literal", "site:non-ascii-text"] {
+                s.require(c, 8);
             }
 
             s.gen("eq-render-triples", s.n(1_200_000, 30_000_000), triple, check_triple);
@@ -190,6 +317,31 @@ fn main() {
             );
 
             s.gen("render", s.n(400_000, 10_000_000), render_case, check_render_case);
+
+            // phase 2: macro-generated templates. One compile per batch of sites; each site is a case.
+            let mut results = std::collections::BTreeMap::new();
+            let mut cases: Vec<SiteCase> = Vec::new();
+            if !s.is_replay() && only_allows("macro-sites") {
+                let per_batch = 240usize;
+                let batches = s.n(1, 6) as usize;
+                let sites: Vec<Site> = s.sample("macro-sites", site(), per_batch * batches);
+                cases = sites.into_iter().enumerate().map(|(i, site)| SiteCase { id: i as u32, site }).collect();
+                for (b, chunk) in cases.chunks(per_batch).enumerate() {
+                    let batch: Vec<(u32, &Site)> = chunk.iter().map(|c| (c.id, &c.site)).collect();
+                    match program::run_batch(&s.verif_dir, "batch", &batch) {
+                        Ok(m) => {
+                            for c in chunk {
+                                if let Some(o) = m.get(&c.id) {
+                                    results.insert(serde_json::to_string(&c.site).unwrap(), o.clone());
+                                }
+                            }
+                        }
+                        Err(e) => s.inconclusive(format!("macro-sites batch {b}: {e}")),
+                    }
+                }
+            }
+            let verif_dir = s.verif_dir.clone();
+            s.manual("macro-sites", cases, |c, cx| check_site(c, cx, &results, &verif_dir));
         },
     )
 }
